@@ -1,28 +1,24 @@
 #!/bin/sh
 # tools/benign.sh [names...] : behaviour-preserving rewrites of in-toto (benign/<name>/patchA.diff, patchB.diff) must
-# not make any check report a violation. Applies each to /repo, runs every check (quick), undoes it; one line per run.
-# Never run while anything else uses /repo.
+# not make any check report a violation. Each is applied to a scratch worktree (tools/try_patch.sh; /repo is never
+# touched) and every check runs against it (quick); one line per run. Alarms are kept under benign/<name>/alarms/.
+HERE="$(cd "$(dirname "$0")/.." && pwd)"; cd "$HERE" || exit 2
 ./setup.sh >/dev/null 2>&1 || { echo "setup failed"; exit 2; }
-HERE="$(pwd)"
 [ $# -eq 0 ] && set -- $(ls benign)
-git -C /repo status --short | grep -q . && { echo "/repo is not clean"; exit 2; }
+ALL="C01 C02 C03 C04 C05 C06 C07 C08 C09 C10 C11 C12 C13 C14 C15 C16 C17 C18 C19 C20"
 for b in "$@"; do
   for v in A B; do
     p="$HERE/benign/$b/patch$v.diff"
     [ -f "$p" ] || continue
-    git -C /repo apply "$p" || { echo "$b$v does not apply"; continue; }
-    for c in C01 C02 C03 C04 C05 C06 C07 C08 C09 C10 C11 C12 C13 C14 C15 C16 C17 C18 C19 C20; do
-      ./check $c --tier quick > /tmp/benign.$$.out 2>&1; rc=$?
-      echo "$b$v $c rc=$rc $(grep -E 'VIOLATION|INFRA' /tmp/benign.$$.out | head -1)"
-      if [ $rc -ne 0 ]; then
-        mkdir -p "$HERE/benign/$b/alarms"
-        cp /tmp/benign.$$.out "$HERE/benign/$b/alarms/$v-$c.out"
-        rp=$(grep -E 'VIOLATION' /tmp/benign.$$.out | head -1 | sed 's/.*replay=\([^ ]*\).*/\1/')
-        [ -f "$rp" ] && cp "$rp" "$HERE/benign/$b/alarms/$v-$c.replay.json"
-      fi
-    done
-    git -C /repo checkout -q -- .
+    tools/try_patch.sh "$b$v" "$p" $ALL | tee "/tmp/benign.$$.lines"
+    if grep -q 'rc=[12]' "/tmp/benign.$$.lines"; then
+      mkdir -p "benign/$b/alarms"
+      for c in $(grep 'rc=[12]' "/tmp/benign.$$.lines" | awk '{print $2}'); do
+        cp "evidence-scratch/$b$v/$c.out" "benign/$b/alarms/$v-$c.out"
+        rp=$(grep -E 'VIOLATION' "evidence-scratch/$b$v/$c.out" | head -1 | sed 's/.*replay=\([^ ]*\).*/\1/')
+        [ -f "$rp" ] && cp "$rp" "benign/$b/alarms/$v-$c.replay.json"
+      done
+    fi
   done
 done
-rm -f /tmp/benign.$$.out
-git -C /repo status --short
+rm -f "/tmp/benign.$$.lines"
